@@ -82,7 +82,9 @@ Init == stage = "cfg" /\ table0 = EmptyT /\ table = EmptyT /\ i = 1 /\ hist = <<
 DefineName ==
   /\ stage = "cfg" /\ i <= Len(Names)
   /\ \/ table0' = table0                                                              \* leave undefined
-     \/ \E rs \in RuleSets, o \in OptionSets : table0' = table0 @@ (Names[i] :> Compiler(rs, o))
+     \* (a definition with neither rules nor options is an empty table, which the configuration schema
+     \*  cannot tell from an empty alias and rejects: not a configuration)
+     \/ \E rs \in RuleSets, o \in OptionSets : ~(rs = {} /\ o = <<>>) /\ table0' = table0 @@ (Names[i] :> Compiler(rs, o))
      \/ \E t \in AliasTargets : t # Names[i] /\ table0' = table0 @@ (Names[i] :> AliasOf(t))
      \/ table0' = table0 @@ (Names[i] :> AliasOf(Names[i]))                            \* self loop
   /\ i' = i + 1 /\ UNCHANGED <<stage, table, hist, argv, results>>
